@@ -154,6 +154,9 @@ func (e *Engine) define(prefix, sort, term string) string {
 	if len(term) < 24 && !strings.Contains(term, " ") {
 		return term
 	}
+	if hasBound(term) {
+		return term
+	}
 	n := e.fresh(prefix)
 	e.sc.Line(fmt.Sprintf("(define-fun %s () %s %s)", n, sort, term))
 	return n
@@ -162,6 +165,12 @@ func (e *Engine) define(prefix, sort, term string) string {
 func (e *Engine) assume(cond, fact string) {
 	if fact == "true" || fact == "" {
 		return
+	}
+	if hasBound(fact) && !strings.HasPrefix(fact, "(forall") {
+		// a fact about a quantifier-bound term cannot be asserted at top level: dropped (only weakens)
+		if hasFreeBound(fact) {
+			return
+		}
 	}
 	e.sc.Line("(assert " + sImp(cond, fact) + ")")
 }
@@ -361,7 +370,7 @@ func (e *Engine) zero(t types.Type) string {
 	case *types.Slice:
 		return "(mk-slice 0 0 0 0)"
 	case *types.Array:
-		return fmt.Sprintf("((as const %s) %s)", e.sortOf(t), e.zero(u.Elem()))
+		return e.constArray(e.sortOf(u.Elem()), e.zero(u.Elem()))
 	case *types.Struct:
 		var fs []string
 		for i := 0; i < u.NumFields(); i++ {
@@ -715,4 +724,55 @@ func (e *Engine) mergeStates(sts []*State) *State {
 func constIntString(v string) (int64, bool) {
 	n, err := strconv.ParseInt(v, 10, 64)
 	return n, err == nil
+}
+
+// hasFreeBound: conservative check that a bound-variable name occurs outside any quantifier that binds it.
+func hasFreeBound(term string) bool {
+	// collect binder names
+	bound := map[string]bool{}
+	for i := 0; i+1 < len(term); i++ {
+		if term[i] == '(' && term[i+1] == '(' {
+			j := i + 2
+			for j < len(term) && term[j] != ' ' && term[j] != ')' {
+				j++
+			}
+			bound[term[i+2:j]] = true
+		}
+	}
+	for i := 0; i+2 < len(term); i++ {
+		if (i == 0 || term[i-1] == ' ' || term[i-1] == '(') && ((term[i] == 'q' && term[i+1] == '.') || (term[i] == 's' && term[i+1] == 'p' && term[i+2] == '.')) {
+			j := i
+			for j < len(term) && term[j] != ' ' && term[j] != ')' {
+				j++
+			}
+			if !bound[term[i:j]] {
+				return true
+			}
+		}
+	}
+	return false
+}
+
+// constArray: an array that is zero everywhere. cvc5 only accepts values in (as const ...), so zeros that
+// mention uninterpreted constants (str.empty, iface.nil, func.nil) get a named array with an axiom.
+func (e *Engine) constArray(elemSort, zero string) string {
+	if !strings.Contains(zero, "str.empty") && !strings.Contains(zero, "iface.nil") && !strings.Contains(zero, "func.nil") && !strings.Contains(zero, "zarr.") {
+		return fmt.Sprintf("((as const (Array Int %s)) %s)", elemSort, zero)
+	}
+	name := "zarr." + mangle(elemSort)
+	e.sc.Decl("const:"+name, fmt.Sprintf("(declare-const %s (Array Int %s))\n(assert (forall ((i Int)) (! (= (select %s i) %s) :pattern ((select %s i)))))", name, elemSort, name, zero, name))
+	return name
+}
+
+// nameConst binds a term to a declared constant (usable inside quantifier patterns, unlike define-fun macros).
+func (e *Engine) nameConst(prefix, sort, term string) string {
+	if !strings.Contains(term, " ") && !strings.Contains(term, "!") {
+		return term
+	}
+	if hasBound(term) {
+		return term
+	}
+	n := e.freshConst(prefix, sort)
+	e.sc.Line(fmt.Sprintf("(assert (= %s %s))", n, term))
+	return n
 }
